@@ -458,3 +458,88 @@ int lemma_evplus_mod_shortcuts(struct forest *f1, struct forest *f2, const struc
     return ok;
 }
 void h_evplus_mod_shortcuts(void) { struct forest *f1, *f2; struct edge_value *x, *y; node_handle w_ap = nondet_int(), w_bp = nondet_int(); lemma_evplus_mod_shortcuts(f1, f2, x, w_ap, y, w_bp); CANARY(); }
+
+/* value of <v, n> at the assignment the ghosts (d, di) stand for, as a terminal pair */
+static void evp_point(long v, node_handle n, long d, _Bool di, struct edge_value *pv, node_handle *pn)
+{
+    pv->mytype = edge_type__LONG;
+    if (n == OMEGA_INFINITY) { *pn = OMEGA_INFINITY; pv->ev_long = 0; }
+    else if (n == OMEGA_NORMAL) { *pn = OMEGA_NORMAL; pv->ev_long = v; }
+    else if (di) { *pn = OMEGA_INFINITY; pv->ev_long = 0; }
+    else { *pn = OMEGA_NORMAL; pv->ev_long = v + d; }
+}
+int lemma_evplus_mult_shortcuts_pw(struct forest *f1, struct forest *f2, const struct edge_value *av_, node_handle ap, const struct edge_value *bv_, node_handle bp, long da, _Bool dai, long db, _Bool dbi)
+{
+    int ok = 0;
+    struct edge_value pa, pb, cv, want; node_handle pan, pbn, cn, wn;
+    evp_point(av_->ev_long, ap, da, dai, &pa, &pan); evp_point(bv_->ev_long, bp, db, dbi, &pb, &pbn);
+    { struct edge_value a1 = *av_; node_handle an1 = ap;
+      if (evplus_mult__simplifiesToFirstArg(0, f1, &a1, &an1, f2, bv_, bp)) {
+          if (an1 == ap || an1 <= 0) {                      /* the answer <a1, an1>: the same node carries the same ghost offset */
+              evp_point(a1.ev_long, an1, da, dai, &want, &wn);
+              evplus_mult__apply(&pa, pan, &pb, pbn, &cv, &cn);
+              if (verif_exc == 0 && cn == wn && (cn == OMEGA_INFINITY || (cv.mytype == edge_type__LONG && cv.ev_long == want.ev_long))) ok |= 1;
+              verif_exc = 0;
+          }
+      } else ok |= 1; }
+    { struct edge_value a1 = *av_; node_handle an1 = ap;
+      if (evplus_mult__simplifiesToSecondArg(0, f1, &a1, &an1, f2, bv_, bp)) {
+          evp_point(bv_->ev_long, bp, db, dbi, &want, &wn);
+          evplus_mult__apply(&pa, pan, &pb, pbn, &cv, &cn);
+          if (verif_exc == 0 && cn == wn && (cn == OMEGA_INFINITY || (cv.mytype == edge_type__LONG && cv.ev_long == want.ev_long))) ok |= 2;
+          verif_exc = 0;
+      } else ok |= 2; }
+    return ok;
+}
+void h_evplus_mult_shortcuts_pw(void) { struct forest *f1, *f2; struct edge_value *x, *y; node_handle w_ap = nondet_int(), w_bp = nondet_int(); long w_da = nondet_long(), w_db = nondet_long(); w_av = nondet_long(); w_bv = nondet_long(); _Bool w_dai = nondet_bool(), w_dbi = nondet_bool();
+    lemma_evplus_mult_shortcuts_pw(f1, f2, x, w_ap, y, w_bp, w_da, w_dai, w_db, w_dbi); CANARY(); }
+int lemma_evplus_div_shortcuts_pw(struct forest *f1, struct forest *f2, const struct edge_value *av_, node_handle ap, const struct edge_value *bv_, node_handle bp, long da, _Bool dai, long db, _Bool dbi)
+{
+    int ok = 0;
+    struct edge_value pa, pb, cv, want; node_handle pan, pbn, cn, wn;
+    evp_point(av_->ev_long, ap, da, dai, &pa, &pan); evp_point(bv_->ev_long, bp, db, dbi, &pb, &pbn);
+    { struct edge_value a1 = *av_; node_handle an1 = ap;
+      if (evplus_div__simplifiesToFirstArg(0, f1, &a1, &an1, f2, bv_, bp)) {
+          if (an1 == ap || an1 <= 0) {                      /* the answer <a1, an1>: the same node carries the same ghost offset */
+              evp_point(a1.ev_long, an1, da, dai, &want, &wn);
+              evplus_div__apply(&pa, pan, &pb, pbn, &cv, &cn);
+              if (verif_exc == 0 && cn == wn && (cn == OMEGA_INFINITY || (cv.mytype == edge_type__LONG && cv.ev_long == want.ev_long))) ok |= 1;
+              verif_exc = 0;
+          }
+      } else ok |= 1; }
+    { struct edge_value a1 = *av_; node_handle an1 = ap;
+      if (evplus_div__simplifiesToSecondArg(0, f1, &a1, &an1, f2, bv_, bp)) {
+          evp_point(bv_->ev_long, bp, db, dbi, &want, &wn);
+          evplus_div__apply(&pa, pan, &pb, pbn, &cv, &cn);
+          if (verif_exc == 0 && cn == wn && (cn == OMEGA_INFINITY || (cv.mytype == edge_type__LONG && cv.ev_long == want.ev_long))) ok |= 2;
+          verif_exc = 0;
+      } else ok |= 2; }
+    return ok;
+}
+void h_evplus_div_shortcuts_pw(void) { struct forest *f1, *f2; struct edge_value *x, *y; node_handle w_ap = nondet_int(), w_bp = nondet_int(); long w_da = nondet_long(), w_db = nondet_long(); w_av = nondet_long(); w_bv = nondet_long(); _Bool w_dai = nondet_bool(), w_dbi = nondet_bool();
+    lemma_evplus_div_shortcuts_pw(f1, f2, x, w_ap, y, w_bp, w_da, w_dai, w_db, w_dbi); CANARY(); }
+int lemma_evplus_mod_shortcuts_pw(struct forest *f1, struct forest *f2, const struct edge_value *av_, node_handle ap, const struct edge_value *bv_, node_handle bp, long da, _Bool dai, long db, _Bool dbi)
+{
+    int ok = 0;
+    struct edge_value pa, pb, cv, want; node_handle pan, pbn, cn, wn;
+    evp_point(av_->ev_long, ap, da, dai, &pa, &pan); evp_point(bv_->ev_long, bp, db, dbi, &pb, &pbn);
+    { struct edge_value a1 = *av_; node_handle an1 = ap;
+      if (evplus_mod__simplifiesToFirstArg(0, f1, &a1, &an1, f2, bv_, bp)) {
+          if (an1 == ap || an1 <= 0) {                      /* the answer <a1, an1>: the same node carries the same ghost offset */
+              evp_point(a1.ev_long, an1, da, dai, &want, &wn);
+              evplus_mod__apply(&pa, pan, &pb, pbn, &cv, &cn);
+              if (verif_exc == 0 && cn == wn && (cn == OMEGA_INFINITY || (cv.mytype == edge_type__LONG && cv.ev_long == want.ev_long))) ok |= 1;
+              verif_exc = 0;
+          }
+      } else ok |= 1; }
+    { struct edge_value a1 = *av_; node_handle an1 = ap;
+      if (evplus_mod__simplifiesToSecondArg(0, f1, &a1, &an1, f2, bv_, bp)) {
+          evp_point(bv_->ev_long, bp, db, dbi, &want, &wn);
+          evplus_mod__apply(&pa, pan, &pb, pbn, &cv, &cn);
+          if (verif_exc == 0 && cn == wn && (cn == OMEGA_INFINITY || (cv.mytype == edge_type__LONG && cv.ev_long == want.ev_long))) ok |= 2;
+          verif_exc = 0;
+      } else ok |= 2; }
+    return ok;
+}
+void h_evplus_mod_shortcuts_pw(void) { struct forest *f1, *f2; struct edge_value *x, *y; node_handle w_ap = nondet_int(), w_bp = nondet_int(); long w_da = nondet_long(), w_db = nondet_long(); w_av = nondet_long(); w_bv = nondet_long(); _Bool w_dai = nondet_bool(), w_dbi = nondet_bool();
+    lemma_evplus_mod_shortcuts_pw(f1, f2, x, w_ap, y, w_bp, w_da, w_dai, w_db, w_dbi); CANARY(); }
